@@ -155,8 +155,8 @@ def post(cases, stats):
 def run(tier, seed):
     import kani_run
     import kcheck
-    harnesses = ["json_roundtrip_1_char", "witness_json_reaches_assert"] + (["json_roundtrip_2_chars"] if tier != "quick" else [])
-    krun = kani_run.KaniRun("buildfmt", harnesses, jobs=3, timeout_s=1500 if tier == "quick" else 5400)
+    harnesses = ["json_char_len1", "json_char_len2", "json_char_len3", "json_char_len4", "witness_json_reaches_assert"]
+    krun = kani_run.KaniRun("buildfmt", harnesses, jobs=5, timeout_s=1800 if tier == "quick" else 3600)
     rc_g = gcheck.run_property(
         "C11", tier, seed, cases_for(tier, seed), "reference",
         functions_encoded=["generated accessors (every index_translations::<N, I> read resolved through the generated STRINGS tables)",
@@ -165,7 +165,7 @@ def run(tier, seed):
         extra_key_check=_extra, post=post)
     rc_k, cov = kcheck.finish(
         "C11", krun, ["witness_json_reaches_assert"],
-        bounds="impl Display for TranslationsFormatter over one string of exactly 1 character (quick) / also 2 characters (thorough), every Unicode scalar value; output <= 24 bytes; unwind 26 with unwinding assertions",
+        bounds="impl Display for TranslationsFormatter (+ write_json_string) over one string of exactly one character: every Unicode scalar value, one harness per UTF-8 length class (1..4 bytes, string length concrete); output <= 16 bytes; unwind 9 with unwinding assertions. Two-character strings were tried (10 GB / > 11 min per length pair, not finished) and are outside the claim; several strings per table likewise.",
         functions=["leptos_i18n_build::<impl Display for TranslationsFormatter>::fmt", "write_json_string"],
         assumptions=["decoder in the harness implements RFC 8259 string grammar (escapes \\\" \\\\ \\/ \\b \\f \\n \\r \\t \\uXXXX, no raw control characters)"])
     kcheck.merge_evidence("C11", "kani", cov, len(cov["violations"]))
